@@ -168,6 +168,9 @@ func scenario(c cfg) vrt.Scenario {
 				x.gateOpen.Store(true)
 			}
 			vrt.Recv(udone)
+			// the users trigger returns when its context ends; in-flight bodies are
+			// awaited separately, as Run.run does
+			vrt.Recv(mgr.WaitForCompletion())
 		case "stages":
 			yaml := fmt.Sprintf(`scenario: s
 limits:
